@@ -343,7 +343,11 @@ func (m *DBM) Clone() *DBM {
 // guardsToDBM adds every comparison guard that holds at block b to the matrix.
 // Returns the guards it could not translate (non-comparison conditions).
 func guardsToDBM(m *DBM, k *Keyer, b *ssa.BasicBlock) (untranslated []Guard) {
-	gs := guardsAt(b)
+	return guardListToDBM(m, k, guardsAt(b))
+}
+
+// guardListToDBM adds the given branch conditions (e.g. those known on one incoming edge of a phi).
+func guardListToDBM(m *DBM, k *Keyer, gs []Guard) (untranslated []Guard) {
 	for _, g := range gs {
 		if !addCondToDBM(m, k, g.Cond, g.Pol) {
 			untranslated = append(untranslated, g)
